@@ -267,4 +267,136 @@ theorem attempt_spec (env : Env) (o : Opts) (run : Nat → St → St × Outcome)
       · rw [hx.2.1]; simp [attCommits, hd, wantsCommit, Bool.and_comm]
       · rw [hx.2.2.2]; simp [attOutSpec, hd]
 
+/-- the record `a` is what execution number `i` of the body really did, started right after the outermost `_enter()`
+    with nothing pending and the database equal to `c` -/
+structure Faithful (env : Env) (o : Opts) (run : Nat → St → St × Outcome) (c : List Write) (i : Nat) (a : Att) : Prop where
+  entered : Entered o a.start
+  pending : a.start.pending = []
+  committed : a.start.committed = c
+  writes : a.writes = (run i a.start).1.pending
+  bodyOut : a.bodyOut = (run i a.start).2
+  exc : a.exc = match a.bodyOut with
+                | .ret => commitErr env a.start.ncommit a.writes
+                | .raise e => some e
+
+/-- `log` records consecutive executions `i, i+1, …`; every one but the last ended in "go on with the next `i`" -/
+inductive Chain (env : Env) (o : Opts) (run : Nat → St → St × Outcome) (c : List Write) : Nat → List Att → Prop where
+  | last (i : Nat) (a : Att) : Faithful env o run c i a → Chain env o run c i [a]
+  | cons (i : Nat) (a : Att) (rest : List Att) : Faithful env o run c i a → (∃ e, attOutSpec env o a = .again e) →
+      Chain env o run c (i + 1) rest → Chain env o run c i (a :: rest)
+
+theorem again_spec {env : Env} {o : Opts} {a : Att} {e : Exc} (h : attOutSpec env o a = .again e) :
+    a.exc = some e ∧ doRetry env o e = .yes := by
+  unfold attOutSpec at h
+  cases hx : a.exc with
+  | none => simp [hx] at h
+  | some e' =>
+    simp only [hx] at h
+    cases hd : doRetry env o e' with
+    | yes =>
+      simp only [hd] at h
+      cases ha : o.allowed e' <;> simp [ha] at h <;> subst h <;> exact ⟨rfl, hd⟩
+    | no => simp [hd] at h
+    | raises e'' => simp [hd] at h
+
+theorem again_not_commits {env : Env} {o : Opts} {run : Nat → St → St × Outcome} {c : List Write} {i : Nat} {a : Att}
+    {e : Exc} (hf : Faithful env o run c i a) (h : attOutSpec env o a = .again e) : attCommits env o a = false := by
+  obtain ⟨hx, hd⟩ := again_spec h
+  have hexc := hf.exc
+  unfold attCommits
+  cases hb : a.bodyOut with
+  | ret =>
+    rw [hb] at hexc
+    rw [hx] at hexc
+    cases hok : commitOK env a.start.ncommit a.writes with
+    | false => simp
+    | true => rw [(commitOK_iff _ _ _).1 hok] at hexc; cases hexc
+  | raise e' =>
+    rw [hb, hx] at hexc
+    simp only [Option.some.injEq] at hexc
+    subst hexc
+    simp [hd]
+
+theorem iter_facts (env : Env) (o : Opts) (run : Nat → St → St × Outcome) (i : Nat) (s : St) (hc : Clean s)
+    (hr : InnerOK (run i)) :
+    Faithful env o run s.committed i (attempt env o run i (entered o s)).2.2 ∧
+    Clean (attempt env o run i (entered o s)).1 ∧
+    (attempt env o run i (entered o s)).1.committed =
+      s.committed ++ (if attCommits env o (attempt env o run i (entered o s)).2.2
+                      then (attempt env o run i (entered o s)).2.2.writes else []) ∧
+    (attempt env o run i (entered o s)).2.1 = attOutSpec env o (attempt env o run i (entered o s)).2.2 := by
+  rcases hb : run i (entered o s) with ⟨bs, bo⟩
+  have h := attempt_spec env o run i (entered o s) (entered_Entered o s) hr bs bo hb
+  obtain ⟨h1, h2, _, h4, h5⟩ := h
+  refine ⟨?_, h2, ?_, h5⟩
+  · rw [h1]
+    refine ⟨entered_Entered o s, ?_, rfl, ?_, ?_, ?_⟩
+    · simpa [entered] using hc.2.2
+    · simp [hb]
+    · simp [hb]
+    · rfl
+  · rw [h4, h1]; rfl
+
+theorem loop_unfold (env : Env) (o : Opts) (run : Nat → St → St × Outcome) (fuel i : Nat) (last : Option Exc) (s : St)
+    (hc : Clean s) :
+    loop env o run (fuel + 1) i last s =
+      match attempt env o run i (entered o s) with
+      | (s2, .done out, a) => ⟨s2, out, [a]⟩
+      | (s2, .again e, a) =>
+        let r := loop env o run fuel (i + 1) (some e) s2
+        ⟨r.st, r.out, a :: r.log⟩ := by
+  rw [loop, enter_clean o s hc]
+  rfl
+
+theorem loop_spec (env : Env) (o : Opts) (run : Nat → St → St × Outcome) (hr : ∀ j, InnerOK (run j)) :
+    ∀ (fuel i : Nat) (last : Option Exc) (s : St), Clean s →
+      Chain env o run s.committed i (loop env o run (fuel + 1) i last s).log ∧
+      (loop env o run (fuel + 1) i last s).log.length ≤ fuel + 1 ∧ Clean (loop env o run (fuel + 1) i last s).st ∧
+      ∃ a, (loop env o run (fuel + 1) i last s).log.getLast? = some a ∧
+        (loop env o run (fuel + 1) i last s).st.committed = s.committed ++ (if attCommits env o a then a.writes else []) ∧
+        (loop env o run (fuel + 1) i last s).out = (match attOutSpec env o a with | .done out => out | .again e => .raise e) ∧
+        (∀ e, attOutSpec env o a = .again e → (loop env o run (fuel + 1) i last s).log.length = fuel + 1) := by
+  intro fuel
+  induction fuel with
+  | zero =>
+    intro i last s hc
+    obtain ⟨hf, hcl, hcm, hout⟩ := iter_facts env o run i s hc (hr i)
+    rw [loop_unfold env o run 0 i last s hc]
+    rcases ht : attempt env o run i (entered o s) with ⟨s2, ao, a⟩
+    rw [ht] at hf hcl hcm hout
+    simp only at hf hcl hcm hout
+    cases ao with
+    | done out =>
+      refine ⟨Chain.last i a hf, by simp, hcl, a, by simp, hcm, ?_, ?_⟩
+      · simp [← hout]
+      · intro e he; rw [← hout] at he; cases he
+    | again e =>
+      have hnc := again_not_commits hf hout.symm
+      simp only [loop]
+      refine ⟨Chain.last i a hf, by simp, hcl, a, by simp, hcm, ?_, ?_⟩
+      · simp [← hout]
+      · intro _ _; rfl
+  | succ n ih =>
+    intro i last s hc
+    obtain ⟨hf, hcl, hcm, hout⟩ := iter_facts env o run i s hc (hr i)
+    rw [loop_unfold env o run (n + 1) i last s hc]
+    rcases ht : attempt env o run i (entered o s) with ⟨s2, ao, a⟩
+    rw [ht] at hf hcl hcm hout
+    simp only at hf hcl hcm hout
+    cases ao with
+    | done out =>
+      refine ⟨Chain.last i a hf, by simp, hcl, a, by simp, hcm, ?_, ?_⟩
+      · simp [← hout]
+      · intro e he; rw [← hout] at he; cases he
+    | again e =>
+      have hnc := again_not_commits hf hout.symm
+      have hs2 : s2.committed = s.committed := by rw [hcm, hnc]; simp
+      obtain ⟨ih1, ih2, ih3, a', ih4, ih5, ih6, ih7⟩ := ih (i + 1) (some e) s2 hcl
+      rw [hs2] at ih1 ih5
+      have hne : (loop env o run (n + 1) (i + 1) (some e) s2).log ≠ [] := by
+        intro h; rw [h] at ih4; cases ih4
+      refine ⟨Chain.cons i a _ hf ⟨e, hout.symm⟩ ih1, by simp; omega, ih3, a', ?_, ih5, ih6, ?_⟩
+      · simp only [List.getLast?_cons_of_ne_nil hne] ; exact ih4
+      · intro e' he'; simp [ih7 e' he']
+
 end PonyVerif.Model.DbSession
